@@ -509,7 +509,13 @@ def worker_f(payload):
                             k1 = (b1["o"][0], (b1.get("t") or [[None]])[0][0] if b1["o"][0] == "ran" else None)
                             k2 = (b2["o"][0], (b2.get("t") or [[None]])[0][0] if b2["o"][0] == "ran" else None)
                             if k1 != k2:
-                                o6["viol"].append({"law": "outcome depends on the order in which distinct signatures were registered", "first": list(k1), "second": list(k2), "order": perm, "kind": "fn-dep", "world": w.desc, "scenario": sc, "op_index": first_call + q})
+                                wit6 = {"kind": "fn-dep-order", "world": w.desc, "scenario": sc, "scenario2": sc2, "op_index": first_call + q, "op_index2": len(perm) + q}
+                                if py_spec.failing_candidates:
+                                    # finding D23 seen from C06: candidates whose value condition fails on this call
+                                    # still shape / tie the type-level ranks, and HOW depends on the order of the sets
+                                    known(o6, "D23:order-among-failing-dependent-candidates", wit6)
+                                else:
+                                    o6["viol"].append({"law": "outcome depends on the order in which distinct signatures were registered", "first": list(k1), "second": list(k2), "order": perm, **wit6})
                                 break
         if len(out["samples"]) < 1:
             out["samples"].append({"defs": sc["defs"][:3], "last_op": sc["ops"][-1], "impl": {k: v for k, v in im[-1].items() if k in ("o", "t")}})
